@@ -58,9 +58,18 @@ class TlvHead(packet.Packet):
         formats.UInt16PayloadLenField('length', default=None),
     ]
 
+    def extract_padding(self, s):
+        ''' The value is bounded by the length field, the rest is the next item. '''
+        return (s[:self.length], s[self.length:])
+
     def post_dissection(self, pkt):
         ''' Verify consistency of packet. '''
-        formats.verify_sized_item(self.length, self.payload)
+        value = bytes(self.payload)
+        pad = self.getlayer(packet.Padding)
+        if pad is not None:
+            # following items are kept as padding by the list field
+            value = value[:len(value) - len(pad.load)]
+        formats.verify_sized_item(self.length, value)
         packet.Packet.post_dissection(self, pkt)
 
 
